@@ -155,4 +155,84 @@ def balancedSkel : Skel → Bool
   | .stopTok => false
   | .unknown => false
 
+/-! ### matching a real token stream against a skeleton (the tie of the regenerated
+skeletons to the writers' behaviour: validated on every generated case, not proved) -/
+
+def skelSize : Skel → Nat
+  | .wrap i => skelSize i + 1
+  | .seq a b => skelSize a + skelSize b + 1
+  | .many s => skelSize s + 1
+  | .alt a b => skelSize a + skelSize b + 1
+  | _ => 1
+
+/-- remainders are suffixes of one stream: equal length means equal -/
+def dedupLen (l : List (List Tok)) : List (List Tok) :=
+  l.foldr (fun x acc => if acc.any (·.length == x.length) then acc else x :: acc) []
+
+/-- the remainders after every balanced prefix (one pass: positions where the depth is back
+at its start without having gone below it) -/
+def balRests : Nat → List Tok → List (List Tok)
+  | d, [] => if d = 0 then [[]] else []
+  | d, t :: r =>
+    (if d = 0 then [t :: r] else []) ++
+      (match t with
+       | .start .. => balRests (d + 1) r
+       | .stop _ => if d = 0 then [] else balRests (d - 1) r
+       | _ => balRests d r)
+
+def suffixes : List Tok → List (List Tok)
+  | [] => [[]]
+  | t :: r => (t :: r) :: suffixes r
+
+/-- closure of `step` from a frontier (remainders are suffixes: at most `length + 1` of them) -/
+def manyLoop (step : List Tok → List (List Tok)) : Nat → List (List Tok) → List (List Tok) → List (List Tok)
+  | 0, _, seen => seen
+  | k + 1, frontier, seen =>
+    let next := (dedupLen (frontier.flatMap step)).filter fun r => !seen.any (·.length == r.length)
+    if next.isEmpty then seen else manyLoop step k next (seen ++ next)
+
+/-- all remainders after a prefix of `ts` produced by `s` (the fuel bounds the nesting) -/
+def matchS : Nat → Skel → List Tok → List (List Tok)
+  | 0, _, _ => []
+  | _ + 1, .empty, ts => [ts]
+  | _ + 1, .chars, ts => match ts with | .chars _ :: r => [r] | _ => []
+  | f + 1, .wrap i, ts =>
+    match ts with
+    | .start n _ :: r =>
+      dedupLen ((matchS f i r).filterMap fun r' =>
+        match r' with
+        | .stop m :: r'' => if m = n then some r'' else none
+        | _ => none)
+    | _ => []
+  | f + 1, .seq a b, ts => dedupLen ((matchS f a ts).flatMap (matchS f b))
+  | f + 1, .many s, ts => manyLoop (matchS f s) (ts.length + 1) [ts] [ts]
+  | f + 1, .alt a b, ts => dedupLen (matchS f a ts ++ matchS f b ts)
+  | _ + 1, .ext, ts => balRests 0 ts
+  | _ + 1, .startTok, ts => match ts with | .start .. :: r => [r] | _ => []
+  | _ + 1, .stopTok, ts => match ts with | .stop _ :: r => [r] | _ => []
+  | _ + 1, .unknown, ts => suffixes ts
+
+/-- the stream is one the skeleton can produce -/
+def accepts (s : Skel) (ts : List Tok) : Bool :=
+  (matchS (skelSize s + 2) s ts).any (·.isEmpty)
+
+/-- prefix code of a skeleton: e c x S E u leaves, w m one argument, s a two arguments -/
+def parseSkel : Nat → List Char → Option (Skel × List Char)
+  | 0, _ => none
+  | _ + 1, [] => none
+  | f + 1, c :: r =>
+    if c = 'e' then some (.empty, r) else if c = 'c' then some (.chars, r)
+    else if c = 'x' then some (.ext, r) else if c = 'S' then some (.startTok, r)
+    else if c = 'E' then some (.stopTok, r) else if c = 'u' then some (.unknown, r)
+    else if c = 'w' then (parseSkel f r).map fun p => (.wrap p.1, p.2)
+    else if c = 'm' then (parseSkel f r).map fun p => (.many p.1, p.2)
+    else if c = 's' then (parseSkel f r).bind fun p => (parseSkel f p.2).map fun q => (.seq p.1 q.1, q.2)
+    else if c = 'a' then (parseSkel f r).bind fun p => (parseSkel f p.2).map fun q => (.alt p.1 q.1, q.2)
+    else none
+
+def decSkel (s : String) : Option Skel :=
+  match parseSkel (s.length + 1) s.toList with
+  | some (k, []) => some k
+  | _ => none
+
 end XmppModel.Payload
